@@ -515,6 +515,12 @@ class Rooting:
                             raise NotRooted(e, f'`{q}` needs its parameter `{p_}` to be {k_}, the call does not pass it')
                         out |= self.need(bound[p_], busy) if k_ == 'rooted' else self.destdir(bound[p_])
                 return out
+            if isinstance(e.func, ast.Attribute) and e.func.attr in ('rstrip', 'strip', 'lstrip', 'removesuffix') and d is not None and d.split('.')[0] not in ('os', 'shutil'):
+                return self.need(e.func.value, busy)       # trimming a rooted path keeps its root
+            if d is None or not (d.startswith(('os.', 'shutil.', 'posixpath.', 'glob.')) or d in ('str', 'repr', 'format')):
+                if isinstance(e.func, ast.Attribute) and attr_chain(e.func.value) is not None and '.' in (attr_chain(e.func.value) or '') and not (d or '').startswith('self.'):
+                    raise NotRooted(e, f'result of `{d or short(e.func)}` (computed from install data) is not derived from DESTDIR')
+                raise Undecided(f'destination computed by `{d or short(e.func)}`, a callee the rule cannot read')
             raise NotRooted(e, f'result of `{d or short(e.func)}` is not derived from DESTDIR')
         if isinstance(e, ast.Subscript):
             if isinstance(e.value, ast.Call) and self._d(e.value.func) in PATH_SPLIT and isinstance(e.slice, ast.Constant) and e.slice.value == 0:
@@ -668,9 +674,295 @@ def compose_assignments(effects: T.Iterable[str], expr: ast.AST) -> ast.AST:
     return ast.fix_missing_locations(_SubstNames(env).visit(ast.parse(norm(expr), mode='eval').body))
 
 
+# --------------------------------------------------------------------------------------------
+# source-to-source normal form (applied to a copy of the syntax tree before any rule looks at it; node positions of the
+# original statements are kept, so locations in findings stay meaningful)
+#   N1  `for f in (a, b, c): body`  (constant display of <= 16 elements, directly or through a single-binding local; body without
+#       break/continue/else, loop variable only read)                           ->  body[f:=a]; body[f:=b]; body[f:=c]
+#   N2  `g = A if c else B` (single binding) ... `g(args)` as a statement / assigned value / returned value
+#                                                                               ->  if c: A(args) else: B(args)
+#   N3  `for x in filter(P, S): body`                                           ->  for x in S: if not P(x): continue; body
+#   N4  `(A if c else B)(args)` as a statement                                  ->  if c: A(args) else: B(args)
+
+import copy as _copy
+
+
+class _Rename(ast.NodeTransformer):
+    def __init__(self, name: str, repl: ast.AST):
+        self.name, self.repl = name, repl
+
+    def visit_Name(self, n: ast.Name) -> ast.AST:
+        if n.id == self.name and isinstance(n.ctx, ast.Load):
+            return ast.copy_location(_copy.deepcopy(self.repl), n)
+        return n
+
+
+def _stores(node: ast.AST, name: str) -> int:
+    return sum(1 for n in ast.walk(node) if isinstance(n, ast.Name) and n.id == name and isinstance(n.ctx, (ast.Store, ast.Del)))
+
+
+def _loads(node: ast.AST, name: str) -> int:
+    return sum(1 for n in ast.walk(node) if isinstance(n, ast.Name) and n.id == name and isinstance(n.ctx, ast.Load))
+
+
+TEST_CALLS = {'isinstance', 'issubclass', 'hasattr', 'callable', 'bool', 'any', 'all', 'len'}
+TEST_METHODS = {'startswith', 'endswith', 'isdigit', 'exists', 'lexists', 'isfile', 'isdir', 'islink', 'isabs'}
+
+
+def _testlike(e: ast.AST) -> bool:
+    """A pure boolean test: comparisons, and/or/not of tests, os.path probes, isinstance/startswith/... calls."""
+    if isinstance(e, ast.BoolOp):
+        return all(_testlike(v) or attr_chain(v) is not None for v in e.values)
+    if isinstance(e, ast.UnaryOp) and isinstance(e.op, ast.Not):
+        return _testlike(e.operand) or attr_chain(e.operand) is not None
+    if isinstance(e, ast.Compare):
+        return not any(isinstance(n, (ast.Call, ast.Await, ast.Yield, ast.NamedExpr)) and not _testlike(n) for n in ast.walk(e) if n is not e and isinstance(n, ast.Call))
+    if isinstance(e, ast.Call) and not any(isinstance(a, ast.Starred) for a in e.args):
+        f = e.func
+        nm = f.attr if isinstance(f, ast.Attribute) else (f.id if isinstance(f, ast.Name) else '')
+        return nm in TEST_CALLS or nm in TEST_METHODS
+    return False
+
+
+def _normalise_function(fn: FuncNode) -> None:
+    changed = True
+    rounds = 0
+    while changed and rounds < 6:
+        changed = False
+        rounds += 1
+        # single-binding locals of the function: name -> (value, the binding statement)
+        binds: T.Dict[str, T.List[T.Tuple[ast.AST, ast.stmt]]] = {}
+        for n in walk_no_nested(fn):
+            if isinstance(n, ast.Assign) and len(n.targets) == 1 and isinstance(n.targets[0], ast.Name):
+                binds.setdefault(n.targets[0].id, []).append((n.value, n))
+            elif isinstance(n, ast.AnnAssign) and isinstance(n.target, ast.Name) and n.value is not None:
+                binds.setdefault(n.target.id, []).append((n.value, n))
+        single = {k: v[0] for k, v in binds.items() if len(v) == 1 and _stores(fn, k) == 1}
+
+        def rewrite(body: T.List[ast.stmt]) -> T.List[ast.stmt]:
+            nonlocal changed
+            out: T.List[ast.stmt] = []
+            for st in body:
+                for field in ('body', 'orelse', 'finalbody'):
+                    sub = getattr(st, field, None)
+                    if isinstance(sub, list) and sub and isinstance(sub[0], ast.stmt) and not isinstance(st, (ast.FunctionDef, ast.AsyncFunctionDef, ast.ClassDef)):
+                        setattr(st, field, rewrite(sub))
+                for h in getattr(st, 'handlers', []):
+                    h.body = rewrite(h.body)
+                # N6  `x += [a, b]` / `x.extend([a, b])` / `x = x + [a]` / `x = [*x, a]`  ->  x.append(a); x.append(b)
+                grown: T.Optional[T.Tuple[ast.AST, T.List[ast.AST]]] = None
+                if isinstance(st, ast.AugAssign) and isinstance(st.op, ast.Add) and isinstance(st.value, ast.List) and attr_chain(st.target):
+                    grown = (st.target, st.value.elts)
+                elif isinstance(st, ast.Expr) and isinstance(st.value, ast.Call) and isinstance(st.value.func, ast.Attribute) and st.value.func.attr == 'extend' \
+                        and len(st.value.args) == 1 and isinstance(st.value.args[0], (ast.List, ast.Tuple)) and attr_chain(st.value.func.value):
+                    grown = (st.value.func.value, st.value.args[0].elts)
+                elif isinstance(st, ast.Assign) and len(st.targets) == 1 and attr_chain(st.targets[0]):
+                    t0, v0 = st.targets[0], st.value
+                    if isinstance(v0, ast.BinOp) and isinstance(v0.op, ast.Add) and norm(v0.left) == norm(t0) and isinstance(v0.right, ast.List):
+                        grown = (t0, v0.right.elts)
+                    elif isinstance(v0, ast.List) and v0.elts and isinstance(v0.elts[0], ast.Starred) and norm(v0.elts[0].value) == norm(t0):
+                        grown = (t0, v0.elts[1:])
+                if grown is not None and 0 < len(grown[1]) <= 4 and not any(isinstance(e, ast.Starred) for e in grown[1]):
+                    for e in grown[1]:
+                        recv = _copy.deepcopy(grown[0])
+                        for n_ in ast.walk(recv):
+                            if isinstance(n_, (ast.Name, ast.Attribute)):
+                                n_.ctx = ast.Load()
+                        ap = ast.Expr(value=ast.Call(func=ast.Attribute(value=recv, attr='append', ctx=ast.Load()), args=[_copy.deepcopy(e)], keywords=[]))
+                        out.append(ast.fix_missing_locations(ast.copy_location(ap, st)))
+                    changed = True
+                    continue
+                # N3 filter
+                if isinstance(st, ast.For) and isinstance(st.iter, ast.Call) and isinstance(st.iter.func, ast.Name) and st.iter.func.id == 'filter' \
+                        and len(st.iter.args) == 2 and not st.iter.keywords and isinstance(st.target, ast.Name):
+                    pred, seq = st.iter.args
+                    x = ast.Name(id=st.target.id, ctx=ast.Load())
+                    test: ast.AST = x if (isinstance(pred, ast.Constant) and pred.value is None) else ast.Call(func=pred, args=[x], keywords=[])
+                    guard = ast.If(test=ast.UnaryOp(op=ast.Not(), operand=test), body=[ast.Continue()], orelse=[])
+                    ast.copy_location(guard, st)
+                    st.iter = seq
+                    st.body = [guard] + st.body
+                    ast.fix_missing_locations(st)
+                    changed = True
+                # N1 unroll
+                if isinstance(st, ast.For) and isinstance(st.target, ast.Name) and not st.orelse:
+                    it = st.iter
+                    drop: T.Optional[ast.stmt] = None
+                    if isinstance(it, ast.Name) and it.id in single and _loads(fn, it.id) == 1:
+                        it, drop = single[it.id]
+                    if isinstance(it, (ast.Tuple, ast.List)) and 0 < len(it.elts) <= 16 and not any(isinstance(e, ast.Starred) for e in it.elts) \
+                            and all(attr_chain(e) is not None or isinstance(e, ast.Constant) for e in it.elts) \
+                            and not any(isinstance(n, (ast.Break, ast.Continue)) for b in st.body for n in ast.walk(b)) \
+                            and not any(_stores(b, st.target.id) for b in st.body) and len(st.body) <= 4:
+                        for e in it.elts:
+                            for b in st.body:
+                                nb = _Rename(st.target.id, e).visit(_copy.deepcopy(b))
+                                out.append(ast.fix_missing_locations(nb))
+                        if drop is not None:
+                            drop._c11_drop = True      # type: ignore[attr-defined]
+                        changed = True
+                        continue
+                # N2 / N4 conditional callable
+                tgt = None
+                if isinstance(st, ast.Expr) and isinstance(st.value, ast.Call):
+                    tgt = ('expr', st.value)
+                elif isinstance(st, ast.Assign) and isinstance(st.value, ast.Call):
+                    tgt = ('assign', st.value)
+                elif isinstance(st, ast.Return) and isinstance(st.value, ast.Call):
+                    tgt = ('return', st.value)
+                if tgt is not None:
+                    call = tgt[1]
+                    sel: T.Optional[ast.IfExp] = None
+                    drop = None
+                    if isinstance(call.func, ast.IfExp):
+                        sel = call.func
+                    elif isinstance(call.func, ast.Name) and call.func.id in single and isinstance(single[call.func.id][0], ast.IfExp) \
+                            and _loads(fn, call.func.id) == 1:
+                        sel, drop = single[call.func.id]     # type: ignore[assignment]
+                    if sel is not None and attr_chain(sel.body) is not None and attr_chain(sel.orelse) is not None \
+                            and all(_stores(fn, nm.id) <= 1 for nm in ast.walk(sel.test) if isinstance(nm, ast.Name)):
+                        def mk(f: ast.AST) -> ast.stmt:
+                            c2 = ast.Call(func=_copy.deepcopy(f), args=_copy.deepcopy(call.args), keywords=_copy.deepcopy(call.keywords))
+                            if tgt[0] == 'expr':
+                                n2: ast.stmt = ast.Expr(value=c2)
+                            elif tgt[0] == 'assign':
+                                n2 = ast.Assign(targets=_copy.deepcopy(st.targets), value=c2)   # type: ignore[attr-defined]
+                            else:
+                                n2 = ast.Return(value=c2)
+                            return ast.fix_missing_locations(ast.copy_location(n2, st))
+                        new = ast.If(test=_copy.deepcopy(sel.test), body=[mk(sel.body)], orelse=[mk(sel.orelse)])
+                        ast.fix_missing_locations(ast.copy_location(new, st))
+                        out.append(new)
+                        if drop is not None:
+                            drop._c11_drop = True      # type: ignore[attr-defined]
+                        changed = True
+                        continue
+                out.append(st)
+            return out
+        fn.body = rewrite(fn.body)
+        # N8  `x in (c1, c2)` over a display of <= 4 constants  ->  x == c1 or x == c2   (`not in` -> and of !=)
+        class _In(ast.NodeTransformer):
+            def visit_Compare(self, n: ast.Compare) -> ast.AST:
+                self.generic_visit(n)
+                if len(n.ops) == 1 and isinstance(n.ops[0], (ast.In, ast.NotIn)) and isinstance(n.comparators[0], (ast.Tuple, ast.List, ast.Set)) \
+                        and 0 < len(n.comparators[0].elts) <= 4 and all(isinstance(e, ast.Constant) for e in n.comparators[0].elts) \
+                        and attr_chain(n.left) is not None:
+                    pos = isinstance(n.ops[0], ast.In)
+                    parts: T.List[ast.expr] = [ast.Compare(left=_copy.deepcopy(n.left), ops=[ast.Eq() if pos else ast.NotEq()], comparators=[e]) for e in n.comparators[0].elts]
+                    new_: ast.AST = parts[0] if len(parts) == 1 else ast.BoolOp(op=ast.Or() if pos else ast.And(), values=parts)
+                    nonlocal changed
+                    changed = True
+                    return ast.fix_missing_locations(ast.copy_location(new_, n))
+                return n
+        for n in list(walk_no_nested(fn)):
+            if isinstance(n, (ast.If, ast.While, ast.IfExp, ast.Assert)):
+                n.test = _In().visit(n.test)
+        # N5  a condition named as a local first (`c = <test>` ... `if c:` / `if not c and ...`): substituted into the tests
+        tests: T.Set[int] = set()
+        for n in walk_no_nested(fn):
+            t_ = getattr(n, 'test', None) if isinstance(n, (ast.If, ast.While, ast.IfExp, ast.Assert)) else None
+            if t_ is not None:
+                stack = [t_]
+                while stack:
+                    x = stack.pop()
+                    tests.add(id(x))
+                    if isinstance(x, ast.BoolOp):
+                        stack += x.values
+                    elif isinstance(x, ast.UnaryOp) and isinstance(x.op, ast.Not):
+                        stack.append(x.operand)
+        for name, (val, bst) in list(single.items()):
+            if getattr(bst, '_c11_drop', False) or not _testlike(val):
+                continue
+            uses = [n for n in walk_no_nested(fn) if isinstance(n, ast.Name) and n.id == name and isinstance(n.ctx, ast.Load)]
+            if not uses or not all(id(u) in tests for u in uses):
+                continue
+            if any(_stores(fn, nm.id) > 1 for nm in ast.walk(val) if isinstance(nm, ast.Name)):
+                continue
+            sub = _Rename(name, val)
+            for n in walk_no_nested(fn):
+                if isinstance(n, (ast.If, ast.While, ast.IfExp, ast.Assert)):
+                    n.test = sub.visit(n.test)
+            bst._c11_drop = True       # type: ignore[attr-defined]
+            changed = True
+
+        def prune(body: T.List[ast.stmt]) -> T.List[ast.stmt]:
+            keep = []
+            for st in body:
+                if getattr(st, '_c11_drop', False):
+                    continue
+                for field in ('body', 'orelse', 'finalbody'):
+                    sub = getattr(st, field, None)
+                    if isinstance(sub, list) and sub and isinstance(sub[0], ast.stmt) and not isinstance(st, (ast.FunctionDef, ast.AsyncFunctionDef, ast.ClassDef)):
+                        setattr(st, field, prune(sub) or [ast.copy_location(ast.Pass(), st)])
+                for h in getattr(st, 'handlers', []):
+                    h.body = prune(h.body) or [ast.copy_location(ast.Pass(), st)]
+                keep.append(st)
+            return keep
+        fn.body = prune(fn.body) or [ast.copy_location(ast.Pass(), fn)]
+
+
+class NormModule(Module):
+    """A Module whose functions are in the normal form above."""
+
+    def __init__(self, orig: Module):
+        self.repo, self.rel, self.src, self.digest = orig.repo, orig.rel, orig.src, orig.digest
+        self.tree = _copy.deepcopy(orig.tree)
+        # N7  a literal hoisted into a module- or class-level constant (`_X_BITS = 0o111`, `COMMENT = '#'`): read back as the literal
+        consts: T.Dict[str, ast.Constant] = {}
+        counts: T.Dict[str, int] = {}
+        for n in ast.walk(self.tree):
+            if isinstance(n, ast.Name) and isinstance(n.ctx, (ast.Store, ast.Del)):
+                counts[n.id] = counts.get(n.id, 0) + 1
+            elif isinstance(n, ast.arg):
+                counts[n.arg] = counts.get(n.arg, 0) + 1
+            elif isinstance(n, ast.Global):
+                for g in n.names:
+                    counts[g] = counts.get(g, 0) + 2
+        for st in self.tree.body:
+            tg = st.targets[0] if isinstance(st, ast.Assign) and len(st.targets) == 1 else (st.target if isinstance(st, ast.AnnAssign) else None)
+            val = getattr(st, 'value', None)
+            if isinstance(tg, ast.Name) and isinstance(val, ast.Constant) and isinstance(val.value, (str, int)) and not isinstance(val.value, bool) \
+                    and counts.get(tg.id, 0) == 1:
+                consts[tg.id] = val
+        if consts:
+            class _K(ast.NodeTransformer):
+                def visit_Name(self, n: ast.Name) -> ast.AST:
+                    if isinstance(n.ctx, ast.Load) and n.id in consts:
+                        return ast.copy_location(ast.Constant(value=consts[n.id].value), n)
+                    return n
+            for n in ast.walk(self.tree):
+                if isinstance(n, (ast.FunctionDef, ast.AsyncFunctionDef)):
+                    n.body = [_K().visit(b) for b in n.body]
+        for n in ast.walk(self.tree):
+            if isinstance(n, (ast.FunctionDef, ast.AsyncFunctionDef)):
+                try:
+                    _normalise_function(n)
+                except RecursionError:    # pragma: no cover
+                    pass
+        self._funcs = {}
+        self._classes = {}
+        self._parents = None
+        self._imports = None
+        self._index(self.tree, '')
+
+
+_NORM: T.Dict[int, T.Tuple[Module, NormModule]] = {}
+
+
+def nmodule(repo: T.Any, rel: str) -> Module:
+    orig = repo.module(rel)
+    hit = _NORM.get(id(orig))
+    if hit is None or hit[0] is not orig:
+        if len(_NORM) > 32:
+            _NORM.clear()
+        hit = (orig, NormModule(orig))
+        _NORM[id(orig)] = hit
+    return hit[1]
+
+
 def synthetic_module(rel: str, src: str) -> Module:
     from ..core import Repo
     try:
-        return Module(Repo('/nonexistent'), rel, src)
+        return NormModule(Module(Repo('/nonexistent'), rel, src))
     except AnalysisError as e:  # pragma: no cover
         raise AnalysisError(f'built-in example does not parse: {e}')
